@@ -11,7 +11,8 @@
 //!   docs/development/VAR_TO_VAR_EQUALITY_TESTS.md "Rust's modulo behavior with negative numbers
 //!   (-25 % 6 = -1)"].  The doc comment of `Model::modulo` in api/arithmetic.rs gives result ranges
 //!   ("y > 0: [0, y-1]; y < 0: [y+1, 0]") that only fit this for non-negative dividends and positive
-//!   divisors; the propagator applies those ranges and so loses the mixed-sign cases (`modulo-negative`).
+//!   divisors (the propagator applied those ranges and lost the mixed-sign cases until the `fix:`
+//!   commits 1585566 / 49b880e / 12c54d2; former matchers `modulo-negative`, `modulo-*-boundary-sampling`).
 //! * `element`: 0-based, `value = array[index]`, an index outside the array violates the constraint
 //!   [api/global.rs `element`, functions.rs `element`: "The `index` is 0-based"].
 //! * `count(vars, t, c)`: `c = #{i | vars[i] = t}`; `gcc`: one `count` per listed value;
@@ -20,6 +21,23 @@
 //! * `bool_and/or/not/xor` result variables: 1 iff all / any / none / exactly one operand non-zero;
 //!   `implies(a,b)`: `a = 1 → b = 1`; `bool_clause(pos,neg)`: `∨pos ∨ ∨¬neg` [api/boolean.rs].
 //! * `*_reif(x,y,b)`: `b ⇔ (x op y)` [api/reified.rs]; `lin_*`: `Σ c_i·v_i op k` [api/linear.rs].
+//! * `element_2d(matrix, r, c, v)`: `matrix[r][c] = v`, `element_3d(cube, d, r, c, v)`: `cube[d][r][c] = v`,
+//!   0-based; an index outside its own dimension violates the constraint (the doc examples declare the
+//!   index variables as "valid row indices: 0, 1, 2") [api/global.rs].
+//! * `table_2d` / `table_3d`: every row of the matrix / of every layer equals one of the tuples (a tuple
+//!   of another length equals no row) [api/global.rs].
+//! * `cumulative(starts, durations, demands, capacity)`: "at any point in time, the sum of resource demands
+//!   of overlapping tasks does not exceed the resource capacity"; task i occupies [s_i, s_i + d_i)
+//!   [functions.rs].  `bool2int(b)`: a new variable equal to `b`.
+//! * float kinds (`int2float`, `float2int_floor/ceil/round`, the free functions `int2float/floor/ceil/round`,
+//!   `array_float_minimum/maximum/element`): the float variables are local to the unit and existentially
+//!   quantified; the oracle computes, per integer assignment, the exact interval of values every float
+//!   term can take (bounds are multiples of 1/4, exact in f64) and from it the exact set of integers the
+//!   conversion can yield.  A returned solution is checked node by node with the tolerance
+//!   `FTOL` = 1.5·step(precision 6) on every float value (so `ceil(1.0) = 2` is accepted: 1.000001 is within
+//!   tolerance).  Float variables that are not determined by the integers make `enumerate` walk the
+//!   step grid, so models with a free float variable are judged through `solve` only (verdict +
+//!   returned assignment).
 //!
 //! Tags (the `tag` column of the oracle file) are decided by matchers on the model description, the
 //! outcome and the path flags, see `Tagger::tag`: the lowering defects (`not-ignored`,
@@ -28,6 +46,17 @@
 //! the defect built in); `root-lp` / `root-lp-infeasible` / `fast-path` only when re-running the call
 //! with the corresponding verification switch off repairs the answer; the remaining tags are
 //! syntactic/semantic matchers on the description (`syntactic_tag`, `rejection_tag`).
+//! Tags of the kinds added for the remaining public API (all "outcome exactly as predicted" matchers):
+//! * `element-nd-index-aliasing`: element_2d/3d range-check only the linearised index
+//!   `r·cols + c` (`d·rows·cols + r·cols + c`), so an index outside its own dimension reads a
+//!   neighbouring row / layer: `element_2d([[1],[2]], r=0, c=1, v)` gives v = 2;
+//!   `element-nd-ragged-matrix` (malformed stream): rows of different lengths are accepted and read
+//!   with the stride of the first row;
+//! * `cumulative-noop`: `functions::cumulative` passes its disjunction variable to `bool_or` as a third
+//!   operand instead of constraining the result, so it constrains nothing
+//!   (`cumulative-pairwise-only`: what remains once that is repaired — only pairs of tasks are compared);
+//! * `float-relative-bound-tolerance`: a float value of the returned solution misses its documented value
+//!   by more than `FTOL` but less than the slack `max(3·step, 1e-5·|bound|)` of `Context::try_set_min/max`.
 use crate::out::{guarded, Out};
 use crate::rng::Rng;
 use selen::prelude as sp;
@@ -335,6 +364,20 @@ pub struct Quirks {
     ne_noop: bool,
     zero_lin: bool,
     fn_implies: bool,
+    /// element_2d/3d: only the linearised index is range-checked (`element-nd-index-aliasing`)
+    elem_alias: bool,
+    /// cumulative: the disjunction variable is passed to `bool_or` as a third operand, so the unit
+    /// constrains nothing (`cumulative-noop`)
+    cum_noop: bool,
+    /// cumulative: only pairs of tasks are looked at (`cumulative-pairwise-only`; what a repaired
+    /// disjunction would give)
+    cum_pairs: bool,
+    /// not a defect: the TOLERANT reading of the float → integer conversions (the float value may be
+    /// off by `FTOL`), i.e. the set of assignments a returned solution may come from; the exact reading
+    /// (all-false `Quirks`) is the set every solver answer must cover
+    tol: bool,
+    /// float values are compared with `wide_tol` instead of `FTOL` (`float-relative-bound-tolerance`)
+    wide_tol: bool,
 }
 
 /// fluent constraint tree
@@ -511,6 +554,8 @@ pub enum FK {
     BXor,
     /// `functions::element(model, array, index)`: args = array ++ [index]
     Elem,
+    /// `functions::bool2int(model, b)`
+    B2I,
 }
 
 /// `let s = m.add(x, y)` …: creates a result variable with the documented meaning.
@@ -574,6 +619,7 @@ impl Fun {
                 }
                 v[idx.n as usize]
             }
+            FK::B2I => v[0],
         })
     }
     fn name(&self) -> &'static str {
@@ -593,6 +639,7 @@ impl Fun {
             (FK::Max, 2) => "m.array_int_maximum",
             (FK::Max, _) => "m.max",
             (FK::Sum, 1) => "fn.sum",
+            (FK::Sum, 2) => "m.sum_iter",
             (FK::Sum, _) => "m.sum",
             (FK::BAnd, 1) => "fn.and",
             (FK::BAnd, _) => "m.bool_and",
@@ -603,6 +650,7 @@ impl Fun {
             (FK::BXor, 1) => "fn.xor",
             (FK::BXor, _) => "m.bool_xor",
             (FK::Elem, _) => "fn.element",
+            (FK::B2I, _) => "fn.bool2int",
         }
     }
     fn show(&self) -> String {
@@ -615,6 +663,233 @@ impl Fun {
             t.each_fun(f);
         }
     }
+}
+
+// ------------------------------------------------------------------------------------------------
+// float terms (unit-local float variables; all bounds in quarters, exact in f64)
+// ------------------------------------------------------------------------------------------------
+/// tolerance on every float value of a returned solution: 1.5 · step(precision 6)
+const FTOL: f64 = 1.5e-6;
+
+/// the tolerance the float bound setters of the crate apply themselves (`Context::try_set_min/max`:
+/// a bound that misses the interval by less than max(3·step, 1e-5·|bound|) is accepted without change)
+/// plus `FTOL`; used only to attribute failures of the `FTOL` check (`float-relative-bound-tolerance`)
+fn wide_tol(v: f64) -> f64 {
+    (3e-6f64).max(1e-5 * v.abs()) + FTOL
+}
+
+fn q4(q: i32) -> f64 {
+    q as f64 / 4.0
+}
+
+fn show_q(q: i32) -> String {
+    format!("{:?}", q4(q))
+}
+
+/// a float-valued term; every node creates one float variable of the solver model
+#[derive(Clone, Debug, PartialEq)]
+pub enum FT {
+    /// `m.float(lo/4, hi/4)`: a free float variable
+    Fresh(i32, i32),
+    /// `None`: `functions::int2float(m, x)`; `Some((lo,hi))`: `f = m.float(lo/4,hi/4); m.int2float(x, f)`
+    OfInt(usize, Option<(i32, i32)>),
+    /// `m.float(c/4, c/4)`
+    Const(i32),
+    /// `m.array_float_minimum(&kids)`
+    Min(Vec<FT>),
+    /// `m.array_float_maximum(&kids)`
+    Max(Vec<FT>),
+    /// `r = m.float(lo/4, hi/4); m.array_float_element(idx, &kids, r)`
+    Elem(usize, Vec<FT>, (i32, i32)),
+}
+
+impl FT {
+    fn name(&self) -> &'static str {
+        match self {
+            FT::Fresh(..) => "m.float",
+            FT::OfInt(_, None) => "fn.int2float",
+            FT::OfInt(_, Some(_)) => "m.int2float",
+            FT::Const(_) => "m.float.const",
+            FT::Min(_) => "m.array_float_minimum",
+            FT::Max(_) => "m.array_float_maximum",
+            FT::Elem(..) => "m.array_float_element",
+        }
+    }
+    fn kids(&self) -> &[FT] {
+        match self {
+            FT::Min(k) | FT::Max(k) | FT::Elem(_, k, _) => k,
+            _ => &[],
+        }
+    }
+    fn each(&self, f: &mut dyn FnMut(&FT)) {
+        f(self);
+        for k in self.kids() {
+            k.each(f);
+        }
+    }
+    /// some float variable of the term is not determined by the integer variables
+    fn free(&self) -> bool {
+        matches!(self, FT::Fresh(..)) || self.kids().iter().any(|k| k.free())
+    }
+    fn show(&self) -> String {
+        let ks = |k: &[FT]| k.iter().map(|x| x.show()).collect::<Vec<_>>().join(",");
+        match self {
+            FT::Fresh(lo, hi) => format!("float({},{})", show_q(*lo), show_q(*hi)),
+            FT::OfInt(x, None) => format!("fn.int2float(x{x})"),
+            FT::OfInt(x, Some((lo, hi))) => format!("m.int2float(x{x},float({},{}))", show_q(*lo), show_q(*hi)),
+            FT::Const(c) => format!("float({0},{0})", show_q(*c)),
+            FT::Min(k) => format!("m.array_float_minimum([{}])", ks(k)),
+            FT::Max(k) => format!("m.array_float_maximum([{}])", ks(k)),
+            FT::Elem(i, k, (lo, hi)) => format!("m.array_float_element(x{i},[{}],float({},{}))", ks(k), show_q(*lo), show_q(*hi)),
+        }
+    }
+    /// exact interval (in quarters) of the values the term can take under the integer assignment `a`;
+    /// `None`: the constraints posted by the term cannot be satisfied under `a`.
+    /// (The free variables are independent leaves of a tree, so the attainable sets compose.)
+    fn iv(&self, a: &[i64]) -> Option<(i64, i64)> {
+        let mut ks = vec![];
+        for k in self.kids() {
+            ks.push(k.iv(a)?);
+        }
+        match self {
+            FT::Fresh(lo, hi) => if lo <= hi { Some((*lo as i64, *hi as i64)) } else { None },
+            FT::OfInt(x, None) => Some((4 * a[*x], 4 * a[*x])),
+            FT::OfInt(x, Some((lo, hi))) => {
+                let v = 4 * a[*x];
+                if (*lo as i64) <= v && v <= *hi as i64 { Some((v, v)) } else { None }
+            }
+            FT::Const(c) => Some((*c as i64, *c as i64)),
+            FT::Min(_) => Some((ks.iter().map(|k| k.0).min()?, ks.iter().map(|k| k.1).min()?)),
+            FT::Max(_) => Some((ks.iter().map(|k| k.0).max()?, ks.iter().map(|k| k.1).max()?)),
+            FT::Elem(i, _, (lo, hi)) => {
+                let i = a[*i];
+                if i < 0 || i as usize >= ks.len() {
+                    return None;
+                }
+                let (l, h) = ks[i as usize];
+                let (l, h) = (l.max(*lo as i64), h.min(*hi as i64));
+                if l <= h { Some((l, h)) } else { None }
+            }
+        }
+    }
+    /// bounds of the term's variable when it is created (what `floor/ceil/round` read)
+    fn decl_bounds(&self, doms: &[Vec<i32>]) -> (f64, f64) {
+        let ks: Vec<(f64, f64)> = self.kids().iter().map(|k| k.decl_bounds(doms)).collect();
+        match self {
+            FT::Fresh(lo, hi) | FT::OfInt(_, Some((lo, hi))) | FT::Elem(_, _, (lo, hi)) => (q4(*lo), q4(*hi)),
+            FT::OfInt(x, None) => (*doms[*x].first().unwrap_or(&0) as f64, *doms[*x].last().unwrap_or(&0) as f64),
+            FT::Const(c) => (q4(*c), q4(*c)),
+            FT::Min(_) => (ks.iter().map(|k| k.0).fold(f64::INFINITY, f64::min), ks.iter().map(|k| k.1).fold(f64::INFINITY, f64::min)),
+            FT::Max(_) => (ks.iter().map(|k| k.0).fold(f64::NEG_INFINITY, f64::max), ks.iter().map(|k| k.1).fold(f64::NEG_INFINITY, f64::max)),
+        }
+    }
+    /// check the values of the float variables of a returned solution (creation order = post-order);
+    /// returns the value of this node
+    fn check(&self, a: &[i64], vals: &mut std::slice::Iter<XV>, wide: bool) -> Result<f64, String> {
+        let mut ks = vec![];
+        for k in self.kids() {
+            ks.push(k.check(a, vals, wide)?);
+        }
+        let v = match vals.next() {
+            Some(XV::F(f)) => *f,
+            Some(XV::I(i)) => *i as f64,
+            None => return Err(format!("no value recorded for {}", self.show())),
+        };
+        let tol = |x: f64| if wide { wide_tol(x) } else { FTOL };
+        let near = |x: f64, y: f64| (x - y).abs() <= tol(x.abs().max(y.abs()));
+        let within = |lo: i32, hi: i32| v >= q4(lo) - tol(q4(lo)) && v <= q4(hi) + tol(q4(hi));
+        let bad = |why: String| Err(format!("{} = {v:?}: {why}", self.show()));
+        match self {
+            FT::Fresh(lo, hi) => if !within(*lo, *hi) { return bad("outside its declared bounds".into()); },
+            FT::OfInt(x, d) => {
+                if !near(v, a[*x] as f64) {
+                    return bad(format!("differs from x{x} = {}", a[*x]));
+                }
+                if let Some((lo, hi)) = d {
+                    if !within(*lo, *hi) {
+                        return bad("outside its declared bounds".into());
+                    }
+                }
+            }
+            FT::Const(c) => if !near(v, q4(*c)) { return bad("differs from the constant".into()); },
+            FT::Min(_) | FT::Max(_) => {
+                let want = if matches!(self, FT::Min(_)) { ks.iter().copied().fold(f64::INFINITY, f64::min) } else { ks.iter().copied().fold(f64::NEG_INFINITY, f64::max) };
+                if !near(v, want) {
+                    return bad(format!("but the operands are {ks:?}"));
+                }
+            }
+            FT::Elem(i, _, (lo, hi)) => {
+                let i = a[*i];
+                if i < 0 || i as usize >= ks.len() {
+                    return bad(format!("index {i} is outside the array"));
+                }
+                if !near(v, ks[i as usize]) {
+                    return bad(format!("but the selected element [{i}] is {:?}", ks[i as usize]));
+                }
+                if !within(*lo, *hi) {
+                    return bad("outside its declared bounds".into());
+                }
+            }
+        }
+        Ok(v)
+    }
+}
+
+/// float → integer conversion
+#[derive(Clone, Copy, Debug, PartialEq, Eq)]
+pub enum Conv {
+    Floor,
+    Ceil,
+    Round,
+}
+
+impl Conv {
+    fn name(self, style: u8) -> &'static str {
+        match (self, style == 1) {
+            (Conv::Floor, false) => "m.float2int_floor",
+            (Conv::Ceil, false) => "m.float2int_ceil",
+            (Conv::Round, false) => "m.float2int_round",
+            (Conv::Floor, true) => "fn.floor",
+            (Conv::Ceil, true) => "fn.ceil",
+            (Conv::Round, true) => "fn.round",
+        }
+    }
+    /// on quarters (ties never occur at the interval ends of a `Round` unit, see the generator)
+    fn of_q(self, q: i64) -> i64 {
+        match self {
+            Conv::Floor => q.div_euclid(4),
+            Conv::Ceil => -((-q).div_euclid(4)),
+            Conv::Round => (q + 2).div_euclid(4),
+        }
+    }
+    fn of_f(self, v: f64) -> i64 {
+        match self {
+            Conv::Floor => v.floor() as i64,
+            Conv::Ceil => v.ceil() as i64,
+            Conv::Round => (v + 0.5).floor() as i64,
+        }
+    }
+}
+
+/// matrix cell: a user variable or a constant (`m.int(c, c)`)
+fn cell_val(t: &Term, a: &[i64]) -> i64 {
+    match t {
+        Term::V(i) => a[*i],
+        Term::K(c) => *c as i64,
+        Term::F(_) => unreachable!("matrix cells are variables or constants"),
+    }
+}
+
+fn show_cells(row: &[Term]) -> String {
+    format!("[{}]", row.iter().map(|t| match t { Term::K(c) => format!("{c}"), t => t.show() }).collect::<Vec<_>>().join(","))
+}
+
+fn show_mat(m: &[Vec<Term>]) -> String {
+    format!("[{}]", m.iter().map(|r| show_cells(r)).collect::<Vec<_>>().join(","))
+}
+
+fn show_vmat(m: &[Vec<usize>]) -> String {
+    format!("[{}]", m.iter().map(|r| show_vs(r)).collect::<Vec<_>>().join(","))
 }
 
 #[derive(Clone, Copy, Debug, PartialEq, Eq)]
@@ -653,6 +928,26 @@ pub enum Con {
     Clause { pos: Vec<usize>, neg: Vec<usize> },
     Reif { op: Cmp, x: usize, y: usize, b: usize, style: u8 },
     Lin { rel: Rel, coeffs: Vec<i32>, vars: Vec<usize>, k: i32, reif: Option<usize>, boolapi: bool, style: u8 },
+    /// `m.element_2d(&mat, r, c, val)`: `mat[r][c] = val`
+    Elem2 { mat: Vec<Vec<Term>>, r: usize, c: usize, val: usize },
+    /// `m.element_3d(&cube, d, r, c, val)`: `cube[d][r][c] = val`
+    Elem3 { cube: Vec<Vec<Vec<Term>>>, d: usize, r: usize, c: usize, val: usize },
+    /// `m.table_2d(&mat, tuples)`: every row is one of the tuples
+    Table2 { mat: Vec<Vec<usize>>, tuples: Vec<Vec<i32>> },
+    /// `m.table_3d(&cube, tuples)`: every row of every layer is one of the tuples
+    Table3 { cube: Vec<Vec<Vec<usize>>>, tuples: Vec<Vec<i32>> },
+    /// a float term, optionally converted to the integer variable `y`:
+    /// style 0 `m.float2int_*(f, y)`, style 1 `let r = floor/ceil/round(&mut m, f); m.new(r.eq(y))`
+    Float { f: FT, conv: Option<(Conv, usize, u8)> },
+    /// `functions::cumulative(&mut m, starts, durations, demands, capacity)`
+    Cumulative { starts: Vec<usize>, durs: Vec<i32>, demands: Vec<i32>, cap: i32 },
+}
+
+/// linearised cell of an `element_2d/3d` access as the implementation computes it: the strides come
+/// from the first row / first layer, only the linear index is range-checked
+fn alias_cell<'a>(flat: &[&'a Term], strides: &[i64], idx: &[i64]) -> Option<&'a Term> {
+    let lin: i64 = strides.iter().zip(idx).map(|(s, i)| s * i).sum();
+    if lin < 0 || lin as usize >= flat.len() { None } else { Some(flat[lin as usize]) }
 }
 
 fn show_vs(v: &[usize]) -> String {
@@ -683,6 +978,15 @@ impl Con {
                 match rel { Rel::Eq => "eq", Rel::Le => "le", Rel::Ne => "ne" },
                 if reif.is_some() { "_reif" } else { "" }
             ),
+            Con::Elem2 { .. } => "m.element_2d".into(),
+            Con::Elem3 { .. } => "m.element_3d".into(),
+            Con::Table2 { .. } => "m.table_2d".into(),
+            Con::Table3 { .. } => "m.table_3d".into(),
+            Con::Float { f, conv } => match conv {
+                Some((k, _, style)) => k.name(*style).to_string(),
+                None => f.name().to_string(),
+            },
+            Con::Cumulative { .. } => "fn.cumulative".into(),
         }
     }
     fn show(&self) -> String {
@@ -720,6 +1024,20 @@ impl Con {
                 show_vs(vars),
                 match reif { Some(b) => format!(",x{b}"), None => String::new() }
             ),
+            Con::Elem2 { mat, r, c, val } => format!("m.element_2d({},x{r},x{c},x{val})", show_mat(mat)),
+            Con::Elem3 { cube, d, r, c, val } => format!("m.element_3d([{}],x{d},x{r},x{c},x{val})", cube.iter().map(|l| show_mat(l)).collect::<Vec<_>>().join(",")),
+            Con::Table2 { mat, tuples } => format!("m.table_2d({},[{}])", show_vmat(mat), tuples.iter().map(|t| crate::out::show_ints(t)).collect::<Vec<_>>().join(",")),
+            Con::Table3 { cube, tuples } => format!(
+                "m.table_3d([{}],[{}])",
+                cube.iter().map(|l| show_vmat(l)).collect::<Vec<_>>().join(","),
+                tuples.iter().map(|t| crate::out::show_ints(t)).collect::<Vec<_>>().join(",")
+            ),
+            Con::Float { f, conv } => match conv {
+                Some((k, y, 1)) => format!("r={}({}); new(r.eq(x{y}))", k.name(1), f.show()),
+                Some((k, y, _)) => format!("{}({},x{y})", k.name(0), f.show()),
+                None => format!("f={}", f.show()),
+            },
+            Con::Cumulative { starts, durs, demands, cap } => format!("fn.cumulative({},{},{},{cap})", show_vs(starts), crate::out::show_ints(durs), crate::out::show_ints(demands)),
         }
     }
     /// does the constraint hold under the assignment `a` of the user variables?
@@ -776,6 +1094,59 @@ impl Con {
                     None => h,
                 }
             }
+            Con::Elem2 { mat, r, c, val } => {
+                let (i, j) = (a[*r], a[*c]);
+                if q.elem_alias {
+                    let flat: Vec<&Term> = mat.iter().flatten().collect();
+                    let cols = mat.first().map_or(0, |r| r.len()) as i64;
+                    return Some(cols > 0 && matches!(alias_cell(&flat, &[cols, 1], &[i, j]), Some(t) if cell_val(t, a) == a[*val]));
+                }
+                i >= 0 && (i as usize) < mat.len() && j >= 0 && (j as usize) < mat[i as usize].len() && cell_val(&mat[i as usize][j as usize], a) == a[*val]
+            }
+            Con::Elem3 { cube, d, r, c, val } => {
+                let (k, i, j) = (a[*d], a[*r], a[*c]);
+                if q.elem_alias {
+                    let flat: Vec<&Term> = cube.iter().flatten().flatten().collect();
+                    let rows = cube.first().map_or(0, |l| l.len()) as i64;
+                    let cols = cube.first().and_then(|l| l.first()).map_or(0, |r| r.len()) as i64;
+                    return Some(rows > 0 && cols > 0 && matches!(alias_cell(&flat, &[rows * cols, cols, 1], &[k, i, j]), Some(t) if cell_val(t, a) == a[*val]));
+                }
+                k >= 0
+                    && (k as usize) < cube.len()
+                    && i >= 0
+                    && (i as usize) < cube[k as usize].len()
+                    && j >= 0
+                    && (j as usize) < cube[k as usize][i as usize].len()
+                    && cell_val(&cube[k as usize][i as usize][j as usize], a) == a[*val]
+            }
+            Con::Table2 { mat, tuples } => mat.iter().all(|row| tuples.iter().any(|t| t.len() == row.len() && t.iter().zip(row).all(|(x, v)| *x as i64 == a[*v]))),
+            Con::Table3 { cube, tuples } => cube.iter().flatten().all(|row| tuples.iter().any(|t| t.len() == row.len() && t.iter().zip(row).all(|(x, v)| *x as i64 == a[*v]))),
+            Con::Float { f, conv } => {
+                // (an empty interval is an unsatisfiable unit, not an undefined term)
+                let Some((lo, hi)) = f.iv(a) else { return Some(false) };
+                match conv {
+                    Some((k, y, _)) if q.tol => k.of_f(lo as f64 / 4.0 - FTOL) <= a[*y] && a[*y] <= k.of_f(hi as f64 / 4.0 + FTOL),
+                    Some((k, y, _)) => k.of_q(lo) <= a[*y] && a[*y] <= k.of_q(hi),
+                    None => true,
+                }
+            }
+            Con::Cumulative { starts, durs, demands, cap } => {
+                let n = starts.len();
+                if q.cum_noop {
+                    return Some(true);
+                }
+                if q.cum_pairs {
+                    // the pairwise decomposition of the implementation
+                    return Some((0..n).all(|i| {
+                        (i + 1..n).all(|j| {
+                            demands[i] + demands[j] <= *cap || a[starts[i]] + durs[i] as i64 <= a[starts[j]] || a[starts[j]] + durs[j] as i64 <= a[starts[i]]
+                        })
+                    }));
+                }
+                let t0 = starts.iter().map(|s| a[*s]).min().unwrap_or(0);
+                let t1 = (0..n).map(|i| a[starts[i]] + durs[i].max(0) as i64).max().unwrap_or(0);
+                (t0..t1).all(|t| (0..n).filter(|i| a[starts[*i]] <= t && t < a[starts[*i]] + durs[*i] as i64).map(|i| demands[i] as i64).sum::<i64>() <= *cap as i64)
+            }
         })
     }
     fn each_fun(&self, f: &mut dyn FnMut(&Fun)) {
@@ -800,6 +1171,8 @@ pub enum Mal {
     ElemIndex,
     /// gcc values/counts length mismatch, table row of wrong arity
     Arity,
+    /// element_2d / element_3d over a matrix whose rows have different lengths
+    Ragged,
 }
 
 impl Mal {
@@ -811,6 +1184,7 @@ impl Mal {
             Mal::ZeroDivisor => "zero-in-divisor-domain",
             Mal::ElemIndex => "element-index-out-of-range",
             Mal::Arity => "gcc-or-table-arity",
+            Mal::Ragged => "ragged-matrix",
         }
     }
     /// the model has no solution by construction (so `Err`/unsat is required)
@@ -836,7 +1210,8 @@ impl Case {
             .iter()
             .map(|i| match alt {
                 Some(al) if al.con == *i => {
-                    let p: Vec<String> = al.posts.iter().map(|t| format!("new({})", t.show())).collect();
+                    let mut p: Vec<String> = al.posts.iter().map(|t| format!("new({})", t.show())).collect();
+                    p.extend(al.cons.iter().map(|c| c.show()));
                     format!("{}{}", if al.fs { "[fn-exprs]" } else { "" }, p.join(" & "))
                 }
                 _ => self.cons[*i].show(),
@@ -848,7 +1223,7 @@ impl Case {
         self.cons.iter().all(|c| c.holds(a, q) == Some(true))
     }
     fn brute(&self, q: Quirks) -> Vec<Vec<i64>> {
-        if matches!(self.mal, Some(m) if m.must_be_unsat()) {
+        if !q.elem_alias && matches!(self.mal, Some(m) if m.must_be_unsat()) {
             return vec![];
         }
         let doms = self.doms();
@@ -876,6 +1251,8 @@ impl Case {
 pub struct Alt {
     con: usize,
     posts: Vec<CT>,
+    /// replacement units (respelling of a non-fluent unit)
+    cons: Vec<Con>,
     fs: bool,
     how: String,
 }
@@ -1047,6 +1424,44 @@ struct Built {
     uv: Vec<VarId>,
     /// (result variable, its defining function) in creation order
     results: Vec<(VarId, Fun)>,
+    /// index (in `case.cons`) of the unit being posted
+    cur: usize,
+    /// float variables (creation order) of every `Con::Float` unit: (unit index, variables)
+    fl: Vec<(usize, Vec<VarId>)>,
+}
+
+fn build_ft(b: &mut Built, f: &FT, rec: &mut Vec<VarId>) -> Result<VarId, String> {
+    let mut ks = vec![];
+    for k in f.kids() {
+        ks.push(build_ft(b, k, rec)?);
+    }
+    let v = match f {
+        FT::Fresh(lo, hi) => b.m.float(q4(*lo), q4(*hi)),
+        FT::OfInt(x, None) => sp::int2float(&mut b.m, b.uv[*x]),
+        FT::OfInt(x, Some((lo, hi))) => {
+            let v = b.m.float(q4(*lo), q4(*hi));
+            b.m.int2float(b.uv[*x], v);
+            v
+        }
+        FT::Const(c) => b.m.float(q4(*c), q4(*c)),
+        FT::Min(_) => b.m.array_float_minimum(&ks).map_err(|e| err_name(&e).to_string())?,
+        FT::Max(_) => b.m.array_float_maximum(&ks).map_err(|e| err_name(&e).to_string())?,
+        FT::Elem(i, _, (lo, hi)) => {
+            let r = b.m.float(q4(*lo), q4(*hi));
+            b.m.array_float_element(b.uv[*i], &ks, r);
+            r
+        }
+    };
+    rec.push(v);
+    Ok(v)
+}
+
+fn cell_var(b: &mut Built, t: &Term) -> VarId {
+    match t {
+        Term::V(i) => b.uv[*i],
+        Term::K(c) => b.m.int(*c, *c),
+        Term::F(_) => unreachable!("matrix cells are variables or constants"),
+    }
 }
 
 fn term_view(b: &mut Built, t: &Term) -> Result<TV, String> {
@@ -1115,7 +1530,15 @@ fn build_fun(b: &mut Built, f: &Fun) -> Result<VarId, String> {
             for t in &f.args {
                 vs.push(term_var(b, t)?);
             }
-            if f.style == 1 { sp::sum(&mut b.m, &vs) } else { b.m.sum(&vs) }
+            match f.style {
+                1 => sp::sum(&mut b.m, &vs),
+                2 => b.m.sum_iter(vs.iter().copied()),
+                _ => b.m.sum(&vs),
+            }
+        }
+        FK::B2I => {
+            let x = term_var(b, &f.args[0])?;
+            sp::bool2int(&mut b.m, x)
         }
         FK::BAnd | FK::BOr => {
             let mut vs = vec![];
@@ -1272,6 +1695,60 @@ fn post_con(b: &mut Built, c: &Con) -> Result<(), String> {
                 (Rel::Ne, Some(r), false, true) => sp::lin_ne_reif(m, cs, &v, k, r),
             }
         }
+        Con::Elem2 { mat, r, c, val } => {
+            let mv: Vec<Vec<VarId>> = mat.iter().map(|row| row.iter().map(|t| cell_var(b, t)).collect()).collect();
+            let (r, c, v) = (b.uv[*r], b.uv[*c], b.uv[*val]);
+            b.m.element_2d(&mv, r, c, v);
+        }
+        Con::Elem3 { cube, d, r, c, val } => {
+            let cv: Vec<Vec<Vec<VarId>>> = cube.iter().map(|l| l.iter().map(|row| row.iter().map(|t| cell_var(b, t)).collect()).collect()).collect();
+            let (d, r, c, v) = (b.uv[*d], b.uv[*r], b.uv[*c], b.uv[*val]);
+            b.m.element_3d(&cv, d, r, c, v);
+        }
+        Con::Table2 { mat, tuples } => {
+            let mv: Vec<Vec<VarId>> = mat.iter().map(|row| ids(b, row)).collect();
+            b.m.table_2d(&mv, tuples.iter().map(|t| vals(t)).collect());
+        }
+        Con::Table3 { cube, tuples } => {
+            let cv: Vec<Vec<Vec<VarId>>> = cube.iter().map(|l| l.iter().map(|row| ids(b, row)).collect()).collect();
+            b.m.table_3d(&cv, tuples.iter().map(|t| vals(t)).collect());
+        }
+        Con::Float { f, conv } => {
+            let mut rec = vec![];
+            let built = build_ft(b, f, &mut rec);
+            // (the variables created so far are recorded even if a constructor failed)
+            let fv = match built {
+                Ok(v) => v,
+                Err(e) => {
+                    b.fl.push((b.cur, rec));
+                    return Err(e);
+                }
+            };
+            if let Some((k, y, style)) = conv {
+                let y = b.uv[*y];
+                let m = &mut b.m;
+                if *style == 1 {
+                    let r = match k {
+                        Conv::Floor => sp::floor(m, fv),
+                        Conv::Ceil => sp::ceil(m, fv),
+                        Conv::Round => sp::round(m, fv),
+                    };
+                    m.new(VarIdExt::eq(r, ExprBuilder::from(y)));
+                    rec.push(r);
+                } else {
+                    match k {
+                        Conv::Floor => m.float2int_floor(fv, y),
+                        Conv::Ceil => m.float2int_ceil(fv, y),
+                        Conv::Round => m.float2int_round(fv, y),
+                    }
+                }
+            }
+            b.fl.push((b.cur, rec));
+        }
+        Con::Cumulative { starts, durs, demands, cap } => {
+            let v = ids(b, starts);
+            sp::cumulative(&mut b.m, &v, durs, demands, *cap);
+        }
     }
     Ok(())
 }
@@ -1306,13 +1783,19 @@ fn build(case: &Case, vo: &[usize], co: &[usize], alt: Option<&Alt>) -> Result<B
         });
         k += 1;
     }
-    let mut b = Built { m, uv: uv.into_iter().map(|v| v.unwrap()).collect(), results: vec![] };
+    let mut b = Built { m, uv: uv.into_iter().map(|v| v.unwrap()).collect(), results: vec![], cur: 0, fl: vec![] };
     for i in co {
+        b.cur = *i;
         match alt {
             Some(al) if al.con == *i => {
                 for t in &al.posts {
                     let c = bct(t, &b.uv, al.fs);
                     b.m.new(c);
+                }
+                // (a respelled unit never contains float terms)
+                b.cur = usize::MAX;
+                for c in &al.cons {
+                    post_con(&mut b, c)?;
                 }
             }
             _ => post_con(&mut b, &case.cons[*i])?,
@@ -1373,6 +1856,8 @@ struct SolV {
     res: Vec<XV>,
     /// all variables of the solver model including hidden auxiliaries (enumerate only)
     full: String,
+    /// values of the float variables of the `Con::Float` units: (unit index, values in creation order)
+    fl: Vec<(usize, Vec<XV>)>,
 }
 
 #[derive(Clone, Copy, Debug, PartialEq)]
@@ -1439,7 +1924,7 @@ fn run_call(case: &Case, vo: &[usize], co: &[usize], alt: Option<&Alt>, call: Ca
             Ok(b) => b,
             Err(e) => return Res::BuildErr(e),
         };
-        let Built { m, uv, results } = b;
+        let Built { m, uv, results, fl, .. } = b;
         funs = results.iter().map(|r| r.1.clone()).collect();
         let rv: Vec<VarId> = results.iter().map(|r| r.0).collect();
         let nvars = std::cell::Cell::new(None::<usize>);
@@ -1457,7 +1942,12 @@ fn run_call(case: &Case, vo: &[usize], co: &[usize], alt: Option<&Alt>, call: Ca
                     let _ = write!(key, "{},", XV::of(s[*id]).show());
                 }
             }
-            SolV { user: uv.iter().map(|v| XV::of(s[*v])).collect(), res: rv.iter().map(|v| XV::of(s[*v])).collect(), full: key }
+            SolV {
+                user: uv.iter().map(|v| XV::of(s[*v])).collect(),
+                res: rv.iter().map(|v| XV::of(s[*v])).collect(),
+                full: key,
+                fl: fl.iter().map(|(i, vs)| (*i, vs.iter().map(|v| XV::of(s[*v])).collect())).collect(),
+            }
         };
         let one = |r: Result<Solution, SolverError>| match r {
             Ok(s) => Res::One(ext(&s, false)),
@@ -1498,6 +1988,8 @@ fn user_ints(s: &SolV) -> Option<Vec<i64>> {
 
 /// C01: domains, constraints, result variables
 fn unsound(case: &Case, funs: &[Fun], s: &SolV, q: Quirks) -> Option<String> {
+    // a returned assignment is judged under the tolerant reading of the float conversions
+    let q = Quirks { tol: true, ..q };
     let Some(a) = user_ints(s) else {
         return Some(format!("a user variable has a non-integer value: [{}]", show_xs(&s.user)));
     };
@@ -1519,6 +2011,31 @@ fn unsound(case: &Case, funs: &[Fun], s: &SolV, q: Quirks) -> Option<String> {
             Some(want) if v.matches(want) => {}
             Some(want) => return Some(format!("result variable of {} is {} but should be {} under {:?}", f.show(), v.show(), want.show(), a)),
             None => return Some(format!("result variable of {} is undefined under {:?}", f.show(), a)),
+        }
+    }
+    // float units: every float variable within FTOL of its documented value, the conversion exact on
+    // some value within FTOL of the returned one
+    for (i, c) in case.cons.iter().enumerate() {
+        if let Con::Float { f, conv } = c {
+            let Some((_, vals)) = s.fl.iter().find(|e| e.0 == i) else { continue };
+            let mut it = vals.iter();
+            let v = match f.check(&a, &mut it, q.wide_tol) {
+                Ok(v) => v,
+                Err(why) => return Some(format!("under {:?}: {why}", a)),
+            };
+            if let Some((k, y, style)) = conv {
+                let t = if q.wide_tol { wide_tol(v) } else { FTOL };
+                let (lo, hi) = (k.of_f(v - t), k.of_f(v + t));
+                if a[*y] < lo || a[*y] > hi {
+                    return Some(format!("x{y} = {} is not {} of {} = {v:?}", a[*y], k.name(*style), f.show()));
+                }
+                if *style == 1 {
+                    match it.next() {
+                        Some(XV::I(r)) if *r == a[*y] => {}
+                        other => return Some(format!("result variable of {} is {:?} but x{y} = {}", k.name(1), other, a[*y])),
+                    }
+                }
+            }
         }
     }
     None
@@ -1565,10 +2082,30 @@ struct Present {
     ne_noop: bool,
     zero_lin: bool,
     fn_implies: bool,
+    elem_alias: bool,
+    cum_noop: bool,
+    cum_pairs: bool,
+}
+
+impl Present {
+    fn all(&self) -> Quirks {
+        Quirks {
+            not_ign: self.not,
+            or_and: self.or,
+            ne_noop: self.ne_noop,
+            zero_lin: self.zero_lin,
+            fn_implies: self.fn_implies,
+            elem_alias: self.elem_alias,
+            cum_noop: self.cum_noop,
+            cum_pairs: self.cum_pairs,
+            tol: false,
+            wide_tol: false,
+        }
+    }
 }
 
 fn present(case: &Case) -> Present {
-    let mut p = Present { not: false, or: false, ne_noop: false, zero_lin: false, fn_implies: false };
+    let mut p = Present { not: false, or: false, ne_noop: false, zero_lin: false, fn_implies: false, elem_alias: false, cum_noop: false, cum_pairs: false };
     for c in &case.cons {
         match c {
             Con::Fluent { t, style } => {
@@ -1595,6 +2132,8 @@ fn present(case: &Case) -> Present {
             Con::Lin { coeffs, reif: None, .. } => p.zero_lin |= coeffs.iter().all(|c| *c == 0),
             // (functions::implies was a no-op on the pinned tree; repaired by a `fix:` commit, so it is no longer a predicted quirk)
             Con::Implies(_, _, 1) => p.fn_implies = false,
+            Con::Elem2 { .. } | Con::Elem3 { .. } => p.elem_alias = true,
+            Con::Cumulative { .. } => p.cum_noop = true,
             _ => {}
         }
     }
@@ -1603,13 +2142,16 @@ fn present(case: &Case) -> Present {
     p
 }
 
-fn quirk_singles(p: &Present) -> [(bool, Quirks, &'static str); 5] {
+fn quirk_singles(p: &Present) -> [(bool, Quirks, &'static str); 8] {
     [
         (p.not, Quirks { not_ign: true, ..Quirks::default() }, "not-ignored"),
         (p.or, Quirks { or_and: true, ..Quirks::default() }, "or-lowered-as-and"),
         (p.ne_noop, Quirks { ne_noop: true, ..Quirks::default() }, "neq-noop"),
         (p.zero_lin, Quirks { zero_lin: true, ..Quirks::default() }, "lin-all-zero-coefficients"),
         (p.fn_implies, Quirks { fn_implies: true, ..Quirks::default() }, "fn-implies-noop"),
+        (p.elem_alias, Quirks { elem_alias: true, ..Quirks::default() }, "element-nd-index-aliasing"),
+        (p.cum_noop, Quirks { cum_noop: true, ..Quirks::default() }, "cumulative-noop"),
+        (p.cum_pairs, Quirks { cum_pairs: true, ..Quirks::default() }, "cumulative-pairwise-only"),
     ]
 }
 
@@ -1686,58 +2228,17 @@ fn has_folded_const_div(case: &Case, zero_only: bool) -> bool {
     hit
 }
 
-/// interval the bounds propagation can give the auxiliary variable of a fluent sub-expression
-fn hull(e: &Ex, doms: &[Vec<i32>]) -> (i64, i64) {
-    match e {
-        Ex::V(i) => (*doms[*i].first().unwrap_or(&0) as i64, *doms[*i].last().unwrap_or(&0) as i64),
-        Ex::C(c) => (*c as i64, *c as i64),
-        Ex::B(op, x, y) => {
-            let ((a, b), (c, d)) = (hull(x, doms), hull(y, doms));
-            match op {
-                Bin::Add => (a + c, b + d),
-                Bin::Sub => (a - d, b - c),
-                Bin::Mul => {
-                    let p = [a * c, a * d, b * c, b * d];
-                    (*p.iter().min().unwrap(), *p.iter().max().unwrap())
-                }
-                _ => (-1000, 1000),
-            }
-        }
-    }
-}
-
-fn term_hull(t: &Term, doms: &[Vec<i32>]) -> (i64, i64) {
-    match t {
-        Term::V(i) => hull(&Ex::V(*i), doms),
-        Term::K(c) => (*c as i64, *c as i64),
-        Term::F(_) => (-1000, 1000),
-    }
-}
-
 /// matchers that are not expressed as a predicted solution set
 fn syntactic_tag(case: &Case) -> String {
     let divs = fluent_divs(case);
     let funs = all_funs(case);
-    let doms = case.doms();
-    let neg = |r: Option<Rat>| matches!(r, Some(r) if r.n < 0);
     // a reified all-zero row: once the reification variable is fixed the row is posted unchecked
     if case.cons.iter().any(|c| matches!(c, Con::Lin { coeffs, reif: Some(_), .. } if coeffs.iter().all(|c| *c == 0))) {
         return "lin-all-zero-coefficients".into();
     }
-    // `%` with a possibly negative operand
-    if divs.iter().any(|(op, x, y)| *op == Bin::Mod && exists_asg(case, &|a| neg(x.ev(a)) || neg(y.ev(a))))
-        || funs.iter().any(|f| f.k == FK::Mod && exists_asg(case, &|a| neg(f.args[0].ev(a)) || neg(f.args[1].ev(a))))
-    {
-        return "modulo-negative".into();
-    }
-    // Modulo propagator: with an unfixed divisor and a dividend range wider than 10 the remainder is
-    // bounded from the dividend's two boundary values only
-    let wide = |x: (i64, i64), y: (i64, i64)| y.0 != y.1 && x.1 - x.0 > 10;
-    if divs.iter().any(|(op, x, y)| *op == Bin::Mod && wide(hull(x, &doms), hull(y, &doms)))
-        || funs.iter().any(|f| f.k == FK::Mod && wide(term_hull(&f.args[0], &doms), term_hull(&f.args[1], &doms)))
-    {
-        return "modulo-dividend-boundary-sampling".into();
-    }
+    // (the Modulo propagator defects `modulo-negative`, `modulo-dividend-boundary-sampling` and
+    // `modulo-divisor-boundary-sampling` were repaired by the `fix:` commits 1585566, 49b880e, 12c54d2:
+    // their matchers are gone, a recurrence is an unlisted failure)
     // `int(3).div(-3)` folds to a float constant, the comparison becomes a float linear row over
     // integer variables
     let folded = has_folded_const_div(case, false);
@@ -1837,6 +2338,16 @@ fn emptying_eq(case: &Case, alt: Option<&Alt>) -> bool {
                 _ => false,
             }
         }
+        // `r = floor/ceil/round(f); r == y`: r is an interval computed from the bounds of f
+        Con::Float { f, conv: Some((k, y, 1)) } => {
+            let (lo, hi) = f.decl_bounds(&doms);
+            let (lo, hi) = match k {
+                Conv::Floor => (lo.floor() as i64, hi.floor() as i64),
+                Conv::Ceil => (lo.ceil() as i64, hi.ceil() as i64),
+                Conv::Round => (lo.round() as i64, hi.round() as i64),
+            };
+            lo <= hi && hi - lo < 1000 && gap(&(lo..=hi).collect::<Vec<i64>>(), &d(*y))
+        }
         _ => false,
     })
 }
@@ -1852,16 +2363,31 @@ struct Tagger<'a> {
     scratch: &'a [VarId],
     /// false for the quiet re-checks (no tagging, no recursion)
     attribute: bool,
+    /// assignments a solver answer may contain under the tolerant reading of the float conversions
+    /// (`None`: same as `truth`)
+    may: Option<Vec<Vec<i64>>>,
+}
+
+fn has_conv(case: &Case) -> bool {
+    case.cons.iter().any(|c| matches!(c, Con::Float { conv: Some(_), .. }))
+}
+
+fn may_set(case: &Case, truth: &[Vec<i64>], q: Quirks) -> Option<Vec<Vec<i64>>> {
+    if !has_conv(case) {
+        return None;
+    }
+    let may = case.brute(Quirks { tol: true, ..q });
+    if may == truth { None } else { Some(may) }
 }
 
 impl<'a> Tagger<'a> {
     fn new(case: &'a Case, truth: &'a [Vec<i64>], scratch: &'a [VarId]) -> Self {
-        Tagger { case, truth, q: Quirks::default(), pred: None, cached: None, scratch, attribute: true }
+        Tagger { case, truth, q: Quirks::default(), pred: None, cached: None, scratch, attribute: true, may: may_set(case, truth, Quirks::default()) }
     }
     /// would the outcome pass every check if `truth2` (semantics `q2`) were the specification?
     fn passes_under(&self, c: &CallOut, call: Call, truth2: &[Vec<i64>], q2: Quirks) -> bool {
         let mut tmp = Out::default();
-        let mut quiet = Tagger { case: self.case, truth: truth2, q: q2, pred: None, cached: None, scratch: self.scratch, attribute: false };
+        let mut quiet = Tagger { case: self.case, truth: truth2, q: q2, pred: None, cached: None, scratch: self.scratch, attribute: false, may: may_set(self.case, truth2, q2) };
         check_call(&mut tmp, 0, self.case, truth2, c, call, &mut quiet);
         tmp.oracle.is_empty()
     }
@@ -1871,7 +2397,7 @@ impl<'a> Tagger<'a> {
     /// a lowering-defect tag, only if the outcome is exactly what those defects predict
     fn quirk_tag(&mut self, c: &CallOut, call: Call) -> Option<String> {
         let p = present(self.case);
-        let all = Quirks { not_ign: p.not, or_and: p.or, ne_noop: p.ne_noop, zero_lin: p.zero_lin, fn_implies: p.fn_implies };
+        let all = p.all();
         if all == Quirks::default() {
             return None;
         }
@@ -1880,6 +2406,17 @@ impl<'a> Tagger<'a> {
         }
         let pred = self.pred.clone().unwrap();
         if pred == self.truth || !self.passes_under(c, call, &pred, all) {
+            // `cumulative` constrains nothing on the pinned tree; with its disjunction repaired it is the
+            // pairwise decomposition: second attempt with that reading
+            if p.cum_noop {
+                let p2 = Present { cum_noop: false, cum_pairs: true, ..p };
+                let all2 = p2.all();
+                let pred2 = self.case.brute(all2);
+                if pred2 != self.truth && self.passes_under(c, call, &pred2, all2) {
+                    let singles = quirk_singles(&p2);
+                    return singles.iter().find(|(here, q, _)| *here && self.case.brute(*q) != self.truth).or_else(|| singles.iter().find(|s| s.0)).map(|s| s.2.to_string());
+                }
+            }
             return None;
         }
         let singles = quirk_singles(&p);
@@ -1899,7 +2436,42 @@ impl<'a> Tagger<'a> {
             let bad_row = self.case.cons.iter().any(|c| matches!(c, Con::Table { vars, tuples, .. } if tuples.iter().any(|t| t.len() != vars.len())));
             let plain_lin = self.case.cons.iter().any(|c| matches!(c, Con::Lin { coeffs, vars, reif: None, .. } if coeffs.len() != vars.len()));
             let reif_lin = self.case.cons.iter().any(|c| matches!(c, Con::Lin { coeffs, vars, reif: Some(_), .. } if coeffs.len() != vars.len()));
+            // element_2d / element_3d: every returned assignment is exactly what the linearised
+            // (first-row stride, only the linear index range-checked) access accepts
+            let alias_q = Quirks { elem_alias: true, ..Quirks::default() };
+            let sols: Vec<&SolV> = match &c.res { Res::One(s) => vec![s], Res::Many(v) => v.iter().collect(), _ => vec![] };
+            let has_nd = self.case.cons.iter().any(|c| matches!(c, Con::Elem2 { .. } | Con::Elem3 { .. }));
+            let sound_under = |q: Quirks| has_nd && !sols.is_empty() && sols.iter().all(|s| unsound(self.case, &c.funs, s, q).is_none());
+            let aliased = sound_under(alias_q);
+            // the element_2d/3d units themselves hold under the aliased reading in every returned assignment
+            let nd_aliased = has_nd
+                && !sols.is_empty()
+                && sols.iter().all(|s| {
+                    user_ints(s).is_some_and(|a| self.case.cons.iter().filter(|c| matches!(c, Con::Elem2 { .. } | Con::Elem3 { .. })).all(|c| c.holds(&a, alias_q) == Some(true)))
+                });
+            // index entirely outside its dimension: that the unit was accepted at all is the aliasing
+            // (whatever else the returned assignment violates is judged in the well-formed stream)
+            if m == Mal::ElemIndex && nd_aliased {
+                return "element-nd-index-aliasing".into();
+            }
+            if !aliased && m == Mal::Ragged {
+                // C01 on a ragged matrix: the aliasing together with one other defect of the model
+                let p = present(self.case);
+                for (here, q, t) in quirk_singles(&p) {
+                    if here && !q.elem_alias && sound_under(Quirks { elem_alias: true, ..q }) {
+                        return format!("element-nd-ragged-matrix+{t}");
+                    }
+                }
+                if nd_aliased {
+                    let t = syntactic_tag(self.case);
+                    if t != "-" {
+                        return format!("element-nd-ragged-matrix+{t}");
+                    }
+                }
+            }
             let specific: Option<&str> = match m {
+                Mal::ElemIndex if aliased => Some("element-nd-index-aliasing"),
+                Mal::Ragged if aliased => Some("element-nd-ragged-matrix"),
                 Mal::LinLen if reif_lin => Some("lin-reif-length-unchecked"),
                 Mal::ZeroDivisor if has_folded_const_div(self.case, true) => Some("constant-division-by-zero-folded"),
                 Mal::Bounds if matches!(c.res, Res::Panic) => Some("empty-domain-view-panic"),
@@ -1932,11 +2504,31 @@ impl<'a> Tagger<'a> {
         if let Some(t) = self.quirk_tag(c, call) {
             return t;
         }
+        // a float value misses its documented value by more than FTOL but by less than the tolerance
+        // of the crate's own bound setters, and nothing else is wrong
+        if self.case.cons.iter().any(|c| matches!(c, Con::Float { .. })) && !self.passes(c, call) && self.passes_under(c, call, self.truth, Quirks { wide_tol: true, ..Quirks::default() }) {
+            return "float-relative-bound-tolerance".into();
+        }
+        // … the same together with the lowering defects of the model
+        if self.case.cons.iter().any(|c| matches!(c, Con::Float { .. })) {
+            let p = present(self.case);
+            let all = p.all();
+            if all != Quirks::default() {
+                let pred = self.case.brute(all);
+                if pred != self.truth && self.passes_under(c, call, &pred, Quirks { wide_tol: true, ..all }) {
+                    let singles = quirk_singles(&p);
+                    let hit = singles.iter().find(|(here, q, _)| *here && self.case.brute(*q) != self.truth).or_else(|| singles.iter().find(|s| s.0));
+                    if let Some((_, _, t)) = hit {
+                        return format!("{t}+float-relative-bound-tolerance");
+                    }
+                }
+            }
+        }
         // optimisation calls: does switching off the root LP step / the fast path repair the answer
         // (or at least bring it back to what the lowering defects predict)?
         if call.is_opt() && c.alt.is_none() && !self.passes(c, call) {
             let p = present(self.case);
-            let all = Quirks { not_ign: p.not, or_and: p.or, ne_noop: p.ne_noop, zero_lin: p.zero_lin, fn_implies: p.fn_implies };
+            let all = p.all();
             let pred = if all == Quirks::default() { self.truth.to_vec() } else { self.case.brute(all) };
             let ok = |me: &Self, c: &CallOut| me.passes(c, call) || me.passes_under(c, call, &pred, all);
             hooks::set_root_lp_disabled(true);
@@ -1944,6 +2536,13 @@ impl<'a> Tagger<'a> {
             hooks::set_root_lp_disabled(false);
             if ok(self, &c2) {
                 return if c.lp { "root-lp".into() } else { "root-lp-infeasible".into() };
+            }
+            // … repaired up to a float value inside the slack of the crate's own bound setters
+            let wide = Quirks { wide_tol: true, ..Quirks::default() };
+            if self.case.cons.iter().any(|c| matches!(c, Con::Float { .. }))
+                && (self.passes_under(&c2, call, self.truth, wide) || self.passes_under(&c2, call, &pred, Quirks { wide_tol: true, ..all }))
+            {
+                return format!("{}+float-relative-bound-tolerance", if c.lp { "root-lp" } else { "root-lp-infeasible" });
             }
             hooks::set_fast_path_disabled(true);
             let c3 = run_call(self.case, &c.vo, &c.co, None, call, self.scratch);
@@ -1990,7 +2589,13 @@ fn obj_of(s: &SolV, v: usize) -> i64 {
 
 /// checks of one call against the brute-force truth; `primary` = full C01–C04 checks
 fn check_call(out: &mut Out, line: usize, case: &Case, truth: &[Vec<i64>], c: &CallOut, call: Call, tg: &mut Tagger) {
+    // `truth`: the exact reading (every answer must cover it); `may`: the tolerant reading of the float
+    // conversions (every answer must stay inside it); the two coincide unless a conversion sits on a
+    // rounding boundary
+    let may_owned: Vec<Vec<i64>> = tg.may.clone().unwrap_or_else(|| truth.to_vec());
+    let may: &[Vec<i64>] = &may_owned;
     let sat = !truth.is_empty();
+    let may_sat = !may.is_empty();
     let nm = call.name();
     out.stat(&format!(
         "verdict.{nm}.{}",
@@ -2043,7 +2648,7 @@ fn check_call(out: &mut Out, line: usize, case: &Case, truth: &[Vec<i64>], c: &C
     }
     match (&c.res, call) {
         (Res::One(_), Call::Solve) => {
-            if !sat {
+            if !may_sat {
                 let t = tg.tag(c, call);
                 out.fail(line, "C02", &t, "solve() is Ok although the model is unsatisfiable");
             }
@@ -2071,13 +2676,14 @@ fn check_call(out: &mut Out, line: usize, case: &Case, truth: &[Vec<i64>], c: &C
             if dd.len() != got.len() {
                 out.stat("enumerate.projection_duplicates");
             }
-            if dd != truth {
+            let inside = truth.iter().all(|w| dd.binary_search(w).is_ok()) && dd.iter().all(|g| may.binary_search(g).is_ok());
+            if dd != truth && !inside {
                 let t = tg.tag(c, call);
                 // does the predicted effect of the known lowering defects give exactly this set?
                 let p = present(case);
-                let all = Quirks { not_ign: p.not, or_and: p.or, ne_noop: p.ne_noop, zero_lin: p.zero_lin, fn_implies: p.fn_implies };
+                let all = p.all();
                 let mut note = "";
-                if ["not-ignored", "or-lowered-as-and", "neq-noop", "lin-all-zero-coefficients", "fn-implies-noop"].contains(&t.as_str()) {
+                if ["not-ignored", "or-lowered-as-and", "neq-noop", "lin-all-zero-coefficients", "fn-implies-noop", "element-nd-index-aliasing", "cumulative-noop", "cumulative-pairwise-only"].contains(&t.as_str()) {
                     if case.brute(all) == dd {
                         out.stat("c03.known-lowering-predicts-exactly");
                         note = " [equals the set predicted by the known lowering defects]";
@@ -2091,12 +2697,15 @@ fn check_call(out: &mut Out, line: usize, case: &Case, truth: &[Vec<i64>], c: &C
         }
         (Res::One(s), Call::Minimize(v)) | (Res::One(s), Call::Maximize(v)) => {
             let min = matches!(call, Call::Minimize(_));
-            if !sat {
+            let opt = |set: &[Vec<i64>]| if min { set.iter().map(|a| a[v]).min() } else { set.iter().map(|a| a[v]).max() };
+            if !may_sat {
                 let t = tg.tag(c, call);
                 out.fail(line, "C04", &t, format!("{nm} is Ok although the model is unsatisfiable"));
-            } else {
-                let best = if min { truth.iter().map(|a| a[v]).min() } else { truth.iter().map(|a| a[v]).max() }.unwrap();
-                if obj_of(s, v) != best {
+            } else if sat {
+                // at least as good as the optimum of the exact reading, not better than the tolerant one
+                let (best, lim) = (opt(truth).unwrap(), opt(may).unwrap());
+                let o = obj_of(s, v);
+                if o != best && !(if min { lim <= o && o <= best } else { best <= o && o <= lim }) {
                     let t = tg.tag(c, call);
                     out.fail(line, "C04", &t, format!("{nm}(x{v}) returned objective {} but the optimum is {best}", s.user[v].show()));
                 }
@@ -2110,7 +2719,8 @@ fn check_call(out: &mut Out, line: usize, case: &Case, truth: &[Vec<i64>], c: &C
         }
         (Res::Many(ss), Call::MinIter(v)) | (Res::Many(ss), Call::MaxIter(v)) => {
             let min = matches!(call, Call::MinIter(_));
-            if ss.is_empty() != !sat {
+            let opt = |set: &[Vec<i64>]| if min { set.iter().map(|a| a[v]).min() } else { set.iter().map(|a| a[v]).max() };
+            if (ss.is_empty() && sat) || (!ss.is_empty() && !may_sat) {
                 let t = tg.tag(c, call);
                 out.fail(line, "C04", &t, format!("{nm} yielded {} solutions but the model is {}", ss.len(), if sat { "satisfiable" } else { "unsatisfiable" }));
             } else if sat {
@@ -2119,8 +2729,9 @@ fn check_call(out: &mut Out, line: usize, case: &Case, truth: &[Vec<i64>], c: &C
                     let t = tg.tag(c, call);
                     out.fail(line, "C04", &t, format!("{nm} does not strictly improve: {:?}", objs));
                 }
-                let best = if min { truth.iter().map(|a| a[v]).min() } else { truth.iter().map(|a| a[v]).max() }.unwrap();
-                if *objs.last().unwrap() != best {
+                let (best, lim) = (opt(truth).unwrap(), opt(may).unwrap());
+                let o = *objs.last().unwrap();
+                if o != best && !(if min { lim <= o && o <= best } else { best <= o && o <= lim }) {
                     let t = tg.tag(c, call);
                     out.fail(line, "C04", &t, format!("{nm}(x{v}) ends at {} but the optimum is {best}", objs.last().unwrap()));
                 }
@@ -2260,7 +2871,34 @@ fn respell(con: usize, t: &CT, r: &mut Rng) -> Alt {
         posts = posts.iter().map(flip_all).collect();
         how.push("swap-sides");
     }
-    Alt { con, posts, fs: r.chance(1, 4), how: how.join("+") }
+    Alt { con, posts, cons: vec![], fs: r.chance(1, 4), how: how.join("+") }
+}
+
+/// equivalent spelling of a non-fluent unit through other API methods:
+/// * `element_2d(M, r, c, v)` = `element_2d(Mᵀ, c, r, v)`; `element_3d(C, d, r, c, v)` with the depth and
+///   row axes exchanged;
+/// * `table_2d(M, T)` = one `table(row, T)` per row; `table_3d(C, T)` = one `table_2d(layer, T)` per layer;
+/// * `cumulative` with the tasks listed in reverse order.
+fn respell_con(con: usize, c: &Con) -> Option<Alt> {
+    let rect = |m: &Vec<Vec<Term>>| !m.is_empty() && !m[0].is_empty() && m.iter().all(|r| r.len() == m[0].len());
+    let (cons, how): (Vec<Con>, &str) = match c {
+        Con::Elem2 { mat, r, c, val } if rect(mat) => {
+            let t: Vec<Vec<Term>> = (0..mat[0].len()).map(|j| mat.iter().map(|row| row[j].clone()).collect()).collect();
+            (vec![Con::Elem2 { mat: t, r: *c, c: *r, val: *val }], "transpose")
+        }
+        Con::Elem3 { cube, d, r, c, val } if !cube.is_empty() && rect(&cube[0]) && cube.iter().all(|l| rect(l) && l.len() == cube[0].len() && l[0].len() == cube[0][0].len()) => {
+            let t: Vec<Vec<Vec<Term>>> = (0..cube[0].len()).map(|i| cube.iter().map(|l| l[i].clone()).collect()).collect();
+            (vec![Con::Elem3 { cube: t, d: *r, r: *d, c: *c, val: *val }], "swap-depth-row")
+        }
+        Con::Table2 { mat, tuples } => (mat.iter().map(|row| Con::Table { vars: row.clone(), tuples: tuples.clone(), style: 0 }).collect(), "table-per-row"),
+        Con::Table3 { cube, tuples } => (cube.iter().map(|l| Con::Table2 { mat: l.clone(), tuples: tuples.clone() }).collect(), "table_2d-per-layer"),
+        Con::Cumulative { starts, durs, demands, cap } => {
+            let rev = |v: &Vec<i32>| v.iter().rev().copied().collect::<Vec<i32>>();
+            (vec![Con::Cumulative { starts: starts.iter().rev().copied().collect(), durs: rev(durs), demands: rev(demands), cap: *cap }], "reverse-tasks")
+        }
+        _ => return None,
+    };
+    Some(Alt { con, posts: vec![], cons, fs: false, how: how.to_string() })
 }
 
 // ------------------------------------------------------------------------------------------------
@@ -2501,9 +3139,9 @@ impl<'a> Gen<'a> {
         Fun { k, args, style }
     }
     fn bool_fun(&mut self) -> Option<Fun> {
-        let k = *self.r.pick(&[FK::BAnd, FK::BOr, FK::BNot, FK::BXor, FK::BAnd, FK::BOr, FK::BXor]);
+        let k = *self.r.pick(&[FK::BAnd, FK::BOr, FK::BNot, FK::BXor, FK::BAnd, FK::BOr, FK::BXor, FK::B2I]);
         let n = match k {
-            FK::BNot => 1,
+            FK::BNot | FK::B2I => 1,
             FK::BXor => 2,
             _ => self.r.range(1, 3),
         };
@@ -2582,8 +3220,191 @@ impl<'a> Gen<'a> {
             .collect();
         Con::Table { vars, tuples, style: self.r.below(2) as u8 }
     }
+    /// declare one more user variable if the assignment space allows it
+    fn fresh(&mut self, lo: i32, hi: i32) -> Option<usize> {
+        let size = (hi - lo + 1).max(1) as u64;
+        if self.n() < 6 && space(&self.decls) * size <= MAX_SPACE {
+            self.decls.push(VarDecl::Int(lo, hi));
+            return Some(self.n() - 1);
+        }
+        None
+    }
+    /// index variable for a dimension of size `dim`: mostly a variable whose whole domain is valid,
+    /// otherwise one whose domain exceeds the dimension (but can hit it)
+    fn idx_var(&mut self, dim: usize) -> Option<usize> {
+        let ok = |v: &i32| *v >= 0 && (*v as usize) < dim;
+        let inr: Vec<usize> = (0..self.n()).filter(|i| !self.decls[*i].dom().is_empty() && self.decls[*i].dom().iter().all(ok)).collect();
+        let some: Vec<usize> = (0..self.n()).filter(|i| self.decls[*i].dom().iter().any(ok)).collect();
+        if self.r.chance(3, 5) {
+            if !inr.is_empty() && self.r.chance(3, 4) {
+                return Some(*self.r.pick(&inr));
+            }
+            if let Some(v) = self.fresh(0, dim as i32 - 1) {
+                return Some(v);
+            }
+        }
+        if !some.is_empty() {
+            return Some(*self.r.pick(&some));
+        }
+        self.fresh(-1, dim as i32)
+    }
+    fn cell(&mut self) -> Term {
+        if self.r.chance(3, 5) { Term::V(self.var()) } else { Term::K(self.r.range(-3, 4) as i32) }
+    }
+    /// (rows, cols) with every shape class: 1×1, single row, single column, square, non-square
+    fn shape(&mut self) -> (usize, usize) {
+        *self.r.pick(&[(1, 1), (1, 2), (1, 3), (2, 1), (3, 1), (2, 2), (2, 3), (3, 2), (2, 3), (3, 2), (3, 3), (2, 2)])
+    }
+    fn elem2(&mut self) -> Option<Con> {
+        let (rows, cols) = self.shape();
+        if self.r.chance(1, 5) {
+            // a matrix of fresh small variables where the space allows it
+            for _ in 0..(rows * cols).min(3) {
+                let lo = self.r.range(-1, 2) as i32;
+                let hi = lo + self.r.range(0, 1) as i32;
+                self.fresh(lo, hi);
+            }
+        }
+        let r = self.idx_var(rows)?;
+        let c = if self.r.chance(1, 10) { r } else { self.idx_var(cols)? };
+        let mat: Vec<Vec<Term>> = (0..rows).map(|_| (0..cols).map(|_| self.cell()).collect()).collect();
+        Some(Con::Elem2 { mat, r, c, val: self.var() })
+    }
+    fn elem3(&mut self) -> Option<Con> {
+        let depth = self.r.range(1, 2) as usize;
+        let (rows, cols) = *self.r.pick(&[(1, 1), (1, 2), (2, 1), (2, 2), (1, 3), (2, 3), (3, 2), (3, 1)]);
+        let d = self.idx_var(depth)?;
+        let r = self.idx_var(rows)?;
+        let c = if self.r.chance(1, 10) { r } else { self.idx_var(cols)? };
+        let cube: Vec<Vec<Vec<Term>>> = (0..depth).map(|_| (0..rows).map(|_| (0..cols).map(|_| self.cell()).collect()).collect()).collect();
+        Some(Con::Elem3 { cube, d, r, c, val: self.var() })
+    }
+    /// tuples for a list of rows: values of some row under a random assignment (so that the table
+    /// can hold), random values from the hulls, now and then a tuple of another arity
+    fn tuples_for(&mut self, rows: &[Vec<usize>]) -> Vec<Vec<i32>> {
+        let n = self.r.range(0, 5);
+        let asg: Vec<i32> = (0..self.n()).map(|i| { let d = self.decls[i].dom(); if d.is_empty() { 0 } else { *self.r.pick(&d) } }).collect();
+        let mut out: Vec<Vec<i32>> = vec![];
+        for _ in 0..n {
+            let row = self.r.pick(rows).clone();
+            let t: Vec<i32> = if self.r.chance(1, 2) {
+                row.iter().map(|v| asg[*v]).collect()
+            } else {
+                row.iter().map(|v| { let (lo, hi) = self.hull(*v); self.r.range(lo - 1, hi + 1) as i32 }).collect()
+            };
+            out.push(t);
+        }
+        if !out.is_empty() && self.r.chance(1, 6) {
+            let k = self.r.below(out.len() as u64) as usize;
+            let mut t = out[k].clone();
+            if t.len() > 1 && self.r.chance(1, 2) { t.pop(); } else { t.push(self.konst()); }
+            out.insert(k, t);
+        }
+        out
+    }
+    fn vrow(&mut self, cols: usize) -> Vec<usize> {
+        (0..cols).map(|_| self.var()).collect()
+    }
+    fn table2(&mut self) -> Con {
+        let (rows, cols) = self.shape();
+        let ragged = self.r.chance(1, 4);
+        let mat: Vec<Vec<usize>> = (0..rows).map(|_| { let c = if ragged { self.r.range(1, 3) as usize } else { cols }; self.vrow(c) }).collect();
+        let tuples = self.tuples_for(&mat);
+        Con::Table2 { mat, tuples }
+    }
+    fn table3(&mut self) -> Con {
+        let depth = self.r.range(1, 2) as usize;
+        let (rows, cols) = *self.r.pick(&[(1, 1), (1, 2), (2, 1), (2, 2), (1, 3), (2, 3)]);
+        let ragged = self.r.chance(1, 8);
+        let cube: Vec<Vec<Vec<usize>>> = (0..depth)
+            .map(|_| (0..rows).map(|_| { let c = if ragged { self.r.range(1, 3) as usize } else { cols }; self.vrow(c) }).collect())
+            .collect();
+        let all: Vec<Vec<usize>> = cube.iter().flatten().cloned().collect();
+        let tuples = self.tuples_for(&all);
+        Con::Table3 { cube, tuples }
+    }
+    /// float bounds in quarters; `no_half`: no bound of the form k + 1/2 (tie of `round`)
+    fn fbounds(&mut self, no_half: bool) -> (i32, i32) {
+        let fix = |q: i32| if no_half && q.rem_euclid(4) == 2 { q + 1 } else { q };
+        let lo = self.r.range(-16, 12) as i32;
+        let w = *self.r.pick(&[0, 0, 1, 2, 3, 4, 5, 6, 8, 10, 12, 16]);
+        (fix(lo), fix(lo + w))
+    }
+    fn ft(&mut self, depth: u32, no_half: bool) -> FT {
+        if depth > 0 && self.r.chance(2, 5) {
+            let n = self.r.range(1, 3);
+            let kids: Vec<FT> = (0..n).map(|_| self.ft(depth - 1, no_half)).collect();
+            return match self.r.below(3) {
+                0 => FT::Min(kids),
+                1 => FT::Max(kids),
+                _ => match self.idx_var(kids.len()) {
+                    Some(i) => FT::Elem(i, kids, if self.r.chance(1, 2) { (-40, 40) } else { self.fbounds(no_half) }),
+                    None => FT::Min(kids),
+                },
+            };
+        }
+        match self.r.below(10) {
+            0..=3 => {
+                let (lo, hi) = self.fbounds(no_half);
+                FT::Fresh(lo, hi)
+            }
+            4..=5 => FT::OfInt(self.var(), None),
+            6..=7 => {
+                let x = self.var();
+                let (lo, hi) = self.hull(x);
+                let (a, b) = (4 * lo as i32 + self.r.range(-3, 6) as i32, 4 * hi as i32 - self.r.range(-3, 6) as i32);
+                FT::OfInt(x, Some(if a <= b { (a, b) } else { (b, a) }))
+            }
+            _ => {
+                let c = self.r.range(-12, 12) as i32;
+                FT::Const(if no_half && c.rem_euclid(4) == 2 { c + 1 } else { c })
+            }
+        }
+    }
+    fn float_unit(&mut self) -> Con {
+        let conv = if self.r.chance(13, 20) {
+            Some((*self.r.pick(&[Conv::Floor, Conv::Ceil, Conv::Round]), self.var(), self.r.below(2) as u8))
+        } else {
+            None
+        };
+        let no_half = matches!(conv, Some((Conv::Round, ..)));
+        let mut f = self.ft(2, no_half);
+        // without a conversion a bare variable or constant constrains nothing
+        for _ in 0..20 {
+            if conv.is_some() || !matches!(f, FT::Fresh(..) | FT::Const(_) | FT::OfInt(_, None)) {
+                break;
+            }
+            f = self.ft(2, no_half);
+        }
+        Con::Float { f, conv }
+    }
+    fn cumulative(&mut self) -> Con {
+        let starts = self.vars(2, 4, self.r.0 % 5 != 0);
+        let n = starts.len();
+        let durs: Vec<i32> = (0..n).map(|_| if self.r.chance(1, 12) { 0 } else { self.r.range(1, 3) as i32 }).collect();
+        let demands: Vec<i32> = (0..n).map(|_| self.r.range(0, 3) as i32).collect();
+        let cap = self.r.range(1, 4) as i32;
+        Con::Cumulative { starts, durs, demands, cap }
+    }
+    /// the kinds added for the remaining public API (moderate weight, before the classic table)
+    fn new_kind(&mut self) -> Option<Con> {
+        match self.r.below(20) {
+            0..=3 => self.elem2(),
+            4..=6 => self.elem3(),
+            7..=9 => Some(self.table2()),
+            10..=11 => Some(self.table3()),
+            12..=17 => Some(self.float_unit()),
+            _ => Some(self.cumulative()),
+        }
+    }
     fn con(&mut self) -> Con {
         for _ in 0..20 {
+            if self.r.chance(10, 100) {
+                match self.new_kind() {
+                    Some(c) => return c,
+                    None => continue,
+                }
+            }
             let w = self.r.below(100);
             let c = match w {
                 0..=29 => Some(self.fluent()),
@@ -2661,6 +3482,10 @@ impl<'a> Gen<'a> {
                 };
                 None
             }
+            Mal::EmptyMinMax if self.r.chance(1, 4) => {
+                let f = if self.r.chance(1, 2) { FT::Min(vec![]) } else { FT::Max(vec![]) };
+                Some(Con::Float { f, conv: None })
+            }
             Mal::EmptyMinMax => {
                 let k = if self.r.chance(1, 2) { FK::Min } else { FK::Max };
                 Some(Con::Fun { f: Fun { k, args: vec![], style: self.r.below(3) as u8 }, then: None })
@@ -2677,6 +3502,61 @@ impl<'a> Gen<'a> {
                     }
                 }
                 Some(Con::Fun { f: Fun { k: FK::Div, args: vec![Term::V(0), Term::K(0)], style: 0 }, then: None })
+            }
+            Mal::ElemIndex if self.r.chance(1, 2) => {
+                // element_2d / element_3d: an empty matrix, or one index variable entirely outside its dimension
+                let three = self.r.chance(2, 5);
+                if self.r.chance(1, 6) {
+                    let (r, c, val) = (self.var(), self.var(), self.var());
+                    return Some(if three {
+                        let cube: Vec<Vec<Vec<Term>>> = self.r.pick(&[vec![], vec![vec![]], vec![vec![vec![]]], vec![vec![], vec![]]]).clone();
+                        Con::Elem3 { cube, d: self.var(), r, c, val }
+                    } else {
+                        let mat: Vec<Vec<Term>> = self.r.pick(&[vec![], vec![vec![]], vec![vec![], vec![]]]).clone();
+                        Con::Elem2 { mat, r, c, val }
+                    });
+                }
+                for _ in 0..50 {
+                    let c = if three { self.elem3() } else { self.elem2() };
+                    let Some(c) = c else { continue };
+                    let (dims, idx): (Vec<usize>, Vec<usize>) = match &c {
+                        Con::Elem2 { mat, r, c, .. } => (vec![mat.len(), mat[0].len()], vec![*r, *c]),
+                        Con::Elem3 { cube, d, r, c, .. } => (vec![cube.len(), cube[0].len(), cube[0][0].len()], vec![*d, *r, *c]),
+                        _ => unreachable!(),
+                    };
+                    let k = self.r.below(idx.len() as u64) as usize;
+                    let n = dims[k] as i32;
+                    self.decls[idx[k]] = if self.r.chance(1, 2) { VarDecl::Int(-3, -1) } else { VarDecl::Int(n, n + self.r.range(0, 2) as i32) };
+                    return Some(c);
+                }
+                None
+            }
+            Mal::Ragged => {
+                let three = self.r.chance(2, 5);
+                for _ in 0..50 {
+                    let c = if three { self.elem3() } else { self.elem2() };
+                    match c {
+                        Some(Con::Elem2 { mut mat, r, c, val }) if mat.len() >= 2 => {
+                            let k = self.r.below(mat.len() as u64) as usize;
+                            if mat[k].len() > 1 && self.r.chance(1, 2) { mat[k].pop(); } else { let t = self.cell(); mat[k].push(t); }
+                            return Some(Con::Elem2 { mat, r, c, val });
+                        }
+                        Some(Con::Elem3 { mut cube, d, r, c, val }) if cube.len() * cube[0].len() >= 2 => {
+                            let k = self.r.below(cube.len() as u64) as usize;
+                            if self.r.chance(1, 3) && cube.len() >= 2 {
+                                // layers with different numbers of rows
+                                let row = cube[k][0].clone();
+                                cube[k].push(row);
+                            } else {
+                                let j = self.r.below(cube[k].len() as u64) as usize;
+                                if cube[k][j].len() > 1 && self.r.chance(1, 2) { cube[k][j].pop(); } else { let t = self.cell(); cube[k][j].push(t); }
+                            }
+                            return Some(Con::Elem3 { cube, d, r, c, val });
+                        }
+                        _ => {}
+                    }
+                }
+                None
             }
             Mal::ElemIndex => {
                 let n = self.r.range(1, 3) as usize;
@@ -2721,7 +3601,7 @@ fn gen_case_once(r: &mut Rng) -> Case {
         let i = r.below(decls.len() as u64) as usize;
         decls[i] = Gen::decl(r, true);
     }
-    let mal = if r.chance(1, 8) { Some(*r.pick(&[Mal::LinLen, Mal::Bounds, Mal::EmptyMinMax, Mal::ZeroDivisor, Mal::ZeroDivisor, Mal::ElemIndex, Mal::Arity])) } else { None };
+    let mal = if r.chance(1, 7) { Some(*r.pick(&[Mal::LinLen, Mal::Bounds, Mal::EmptyMinMax, Mal::ZeroDivisor, Mal::ZeroDivisor, Mal::ElemIndex, Mal::Arity, Mal::ElemIndex, Mal::Ragged])) } else { None };
     let mut g = Gen { r, decls, mal: None };
     let mut cons = vec![];
     if let Some(m) = mal {
@@ -2821,6 +3701,68 @@ fn note_vocabulary(out: &mut Out, case: &Case) {
                 }
             });
         }
+        match c {
+            Con::Elem2 { mat, r, c, .. } => {
+                let cols = mat.first().map_or(0, |r| r.len());
+                out.stat(&format!("elem2.shape.{}", match (mat.len(), cols) { (1, 1) => "1x1", (1, _) => "single-row", (_, 1) => "single-column", (a, b) if a == b => "square", _ => "non-square" }));
+                let d = case.doms();
+                if !d[*r].iter().all(|v| *v >= 0 && (*v as usize) < mat.len()) || !d[*c].iter().all(|v| *v >= 0 && (*v as usize) < cols) {
+                    out.stat("elem2.index-domain-exceeds-dimension");
+                }
+                if r == c {
+                    out.stat("elem2.same-index-variable");
+                }
+                let vs: Vec<&Term> = mat.iter().flatten().filter(|t| matches!(t, Term::V(_))).collect();
+                if (0..vs.len()).any(|i| (0..i).any(|j| vs[i] == vs[j])) {
+                    out.stat("elem2.repeated-variable");
+                }
+            }
+            Con::Elem3 { cube, d, r, c, .. } => {
+                let (rows, cols) = (cube.first().map_or(0, |l| l.len()), cube.first().and_then(|l| l.first()).map_or(0, |r| r.len()));
+                out.stat(&format!("elem3.shape.{}x{}x{}", cube.len(), rows, cols));
+                let dm = case.doms();
+                let exceeds = |v: usize, n: usize| !dm[v].iter().all(|x| *x >= 0 && (*x as usize) < n);
+                if exceeds(*d, cube.len()) || exceeds(*r, rows) || exceeds(*c, cols) {
+                    out.stat("elem3.index-domain-exceeds-dimension");
+                }
+            }
+            Con::Table { tuples, .. } if tuples.is_empty() => out.stat("table.empty-tuple-list"),
+            Con::Table2 { mat, tuples } => {
+                if tuples.is_empty() {
+                    out.stat("table.empty-tuple-list");
+                }
+                if mat.iter().any(|r| r.len() != mat[0].len()) {
+                    out.stat("table2.ragged");
+                }
+                if tuples.iter().any(|t| !mat.iter().any(|r| r.len() == t.len())) {
+                    out.stat("table2.tuple-of-other-arity");
+                }
+                out.stat(&format!("table2.rows.{}", mat.len()));
+            }
+            Con::Table3 { cube, tuples } => {
+                if tuples.is_empty() {
+                    out.stat("table.empty-tuple-list");
+                }
+                if tuples.iter().any(|t| !cube.iter().flatten().any(|r| r.len() == t.len())) {
+                    out.stat("table3.tuple-of-other-arity");
+                }
+                out.stat(&format!("table3.layers.{}", cube.len()));
+            }
+            Con::Float { f, conv } => {
+                f.each(&mut |n| out.stat(&format!("ft.{}", n.name())));
+                out.stat(if f.free() { "float.free-variable" } else { "float.determined" });
+                if conv.is_some() {
+                    out.stat("float.converted");
+                }
+            }
+            Con::Cumulative { starts, durs, .. } => {
+                out.stat(&format!("cumulative.tasks.{}", starts.len()));
+                if durs.iter().any(|d| *d == 0) {
+                    out.stat("cumulative.zero-duration");
+                }
+            }
+            _ => {}
+        }
         if let Con::Lin { coeffs, .. } = c {
             if coeffs.iter().any(|c| *c == 0) {
                 out.stat("lin.zero-coefficient");
@@ -2850,10 +3792,23 @@ fn run_case(out: &mut Out, case: &Case, r: &mut Rng, scratch: &[VarId]) {
     out.stat_n("space", space(&case.decls));
     let v = r.below(n as u64) as usize;
     let calls = [Call::Solve, Call::Enumerate, Call::Minimize(v), Call::Maximize(v), Call::MinIter(v), Call::MaxIter(v)];
+    // a float variable that the integers do not determine makes the iterators walk the step grid:
+    // such models are judged through solve() only (verdict + returned assignment)
+    let free_float = case.cons.iter().any(|c| matches!(c, Con::Float { f, .. } if f.free()));
+    if free_float {
+        out.stat("calls.solve-only(free-float)");
+    }
     let model = case.show(&vo, &co, None);
     let mut tg = Tagger::new(case, &truth, scratch);
+    if let Some(may) = &tg.may {
+        out.stat("float.tolerant-reading-admits-more");
+        out.stat_n("float.tolerant-reading-extra-assignments", (may.len() - truth.len()) as u64);
+    }
     let mut primary: Vec<CallOut> = vec![];
     for call in calls {
+        if free_float && call != Call::Solve {
+            break;
+        }
         let c = run_call(case, &vo, &co, None, call, scratch);
         let line = out.emit(format!("#api {model} | {}", call.show()), render(&c));
         check_call(out, line, case, &truth, &c, call, &mut tg);
@@ -2862,12 +3817,39 @@ fn run_case(out: &mut Out, case: &Case, r: &mut Rng, scratch: &[VarId]) {
     if case.mal.is_some() {
         return;
     }
+    if free_float {
+        // C14 on the verdict of solve()
+        let (pv, pc) = (shuffle(r, n), shuffle(r, case.cons.len()));
+        if pv != vo || pc != co {
+            out.stat("c14.permuted");
+            let c = run_call(case, &pv, &pc, None, Call::Solve, scratch);
+            let line = out.emit(format!("#api {} | solve() [permuted]", case.show(&pv, &pc, None)), render(&c));
+            if matches!(c.res, Res::Panic) {
+                let t = tg.tag(&c, Call::Solve);
+                out.fail(line, "C17", &t, "panic in solve of the permuted model");
+            } else {
+                check_call(out, line, case, &truth, &c, Call::Solve, &mut tg);
+                let (a, b) = (summary(&c, Call::Solve), summary(&primary[0], Call::Solve));
+                if a != b {
+                    let mut t = tg.tag(&c, Call::Solve);
+                    if t == "-" {
+                        t = tg.tag(&primary[0], Call::Solve);
+                    }
+                    out.fail(line, "C14", &t, format!("solve: permuted order gives {a} but the original order gives {b}"));
+                }
+            }
+        }
+        return;
+    }
     // ---- C10: an equivalent spelling of one fluent constraint ----
-    let fl: Vec<usize> = (0..case.cons.len()).filter(|i| matches!(case.cons[*i], Con::Fluent { .. })).collect();
+    let fl: Vec<usize> = (0..case.cons.len()).filter(|i| matches!(case.cons[*i], Con::Fluent { .. }) || respell_con(*i, &case.cons[*i]).is_some()).collect();
     if !fl.is_empty() {
         let ci = *r.pick(&fl);
-        if let Con::Fluent { t, .. } = &case.cons[ci] {
-            let alt = respell(ci, t, r);
+        let alt = match &case.cons[ci] {
+            Con::Fluent { t, .. } => Some(respell(ci, t, r)),
+            c => respell_con(ci, c),
+        };
+        if let Some(alt) = alt {
             out.stat("c10.respelled");
             for h in alt.how.split('+') {
                 out.stat(&format!("c10.{h}"));
@@ -2880,8 +3862,10 @@ fn run_case(out: &mut Out, case: &Case, r: &mut Rng, scratch: &[VarId]) {
             for t in &alt.posts {
                 both.cons.push(Con::Fluent { t: t.clone(), style: alt.fs as u8 });
             }
+            both.cons.extend(alt.cons.iter().cloned());
             let mut tg2 = Tagger::new(&both, &truth, scratch);
             let prim = &primary[1];
+            let may = tg.may.clone();
             let mut tag = |c: &CallOut| {
                 let t = tg2.tag(c, Call::Enumerate);
                 if t != "-" { t } else { tg.tag(prim, Call::Enumerate) }
@@ -2895,11 +3879,16 @@ fn run_case(out: &mut Out, case: &Case, r: &mut Rng, scratch: &[VarId]) {
                     let (mut pa, mut pb) = (proj(a), proj(b));
                     pa.dedup();
                     pb.dedup();
-                    if pa != pb {
+                    // (assignments that only the tolerant reading of a float conversion admits may come and go)
+                    let slack = |x: &Vec<i64>| matches!(&may, Some(m) if m.binary_search(x).is_ok() && truth.binary_search(x).is_err());
+                    let same = pa == pb || (pa.iter().all(|x| pb.contains(x) || slack(x)) && pb.iter().all(|x| pa.contains(x) || slack(x)));
+                    let exact = pa == truth || (truth.iter().all(|x| pa.contains(x)) && pa.iter().all(|x| truth.binary_search(x).is_ok() || slack(x)));
+                    if !same {
                         let t = tag(&c);
-                        out.fail(line, "C10", &t, format!("spelling `{}` vs original: {}", alt.posts.iter().map(|t| t.show()).collect::<Vec<_>>().join(" & "), first_diff(&pa, &pb)));
+                        let sp: Vec<String> = alt.posts.iter().map(|t| t.show()).chain(alt.cons.iter().map(|c| c.show())).collect();
+                        out.fail(line, "C10", &t, format!("spelling `{}` vs original: {}", sp.join(" & "), first_diff(&pa, &pb)));
                     }
-                    if pa != truth {
+                    if !exact {
                         let t = tag(&c);
                         out.fail(line, "C10", &t, format!("respelled model vs direct evaluation: {}", first_diff(&pa, &truth)));
                     }
@@ -2922,10 +3911,14 @@ fn run_case(out: &mut Out, case: &Case, r: &mut Rng, scratch: &[VarId]) {
                 continue;
             }
             let (a, b) = (summary(&c, call), summary(&primary[k], call));
-            if a != b {
-                let mut t = tg.tag(&c, call);
+            // (where the tolerant reading of a float conversion admits more than the exact one, both
+            // orders only have to give an admissible answer)
+            if a != b && !(tg.may.is_some() && tg.passes(&c, call) && tg.passes(&primary[k], call)) {
+                // (a panic in the original order is the more specific symptom: its matcher first)
+                let (first, second) = if matches!(primary[k].res, Res::Panic) { (&primary[k], &c) } else { (&c, &primary[k]) };
+                let mut t = tg.tag(first, call);
                 if t == "-" {
-                    t = tg.tag(&primary[k], call);
+                    t = tg.tag(second, call);
                 }
                 let cut = |s: &String| if s.len() > 160 { format!("{}…", &s[..160]) } else { s.clone() };
                 out.fail(line, "C14", &t, format!("{}: permuted order gives {} but the original order gives {}", call.name(), cut(&a), cut(&b)));
@@ -2947,6 +3940,10 @@ pub fn suite(out: &mut Out, seed: u64, count: u64) {
         let mut r = root.fork();
         out.case(&format!("api{i}"));
         let case = gen_case(&mut r);
+        // debugging aid: API_ONLY=<i> runs only that case (the generator stream is unchanged)
+        if matches!(std::env::var("API_ONLY"), Ok(o) if o != format!("{i}")) {
+            continue;
+        }
         run_case(out, &case, &mut r, &scratch);
     }
 }
